@@ -1195,11 +1195,12 @@ SPEC = {
     'compare': compare,
     'classify': classify,
     'partial_note': 'rung 1 and rung 2 complete (every spelling of every object incl. fillers in composites, indirect objects, trailer; the two open '
-                    'findings excluded by their classes); rung 3 proved for whole files with a cross-reference table (Length direct or a reference), '
-                    'with a cross-reference stream of any W / Index, and with any filter chain of the reference writer on it (Flate stored blocks, '
-                    'ASCII85, ASCIIHex, PNG predictor) against LoaderExt.load_ext on the Gallina decoders; object streams and the deferred Length '
-                    'path proved at the level of their pieces (C02_objstm_any_spelling, C02_length_ref_*); not proved: whole files with object '
-                    'streams, multi-section files (Prev), C02_full as stated',
+                    'findings excluded by their classes); rung 3: C02_full is a theorem against LoaderExt.load_ext on the Gallina decoders for every '
+                    'single-section file of the reference writer (cross-reference table or stream of any W / Index / filter chain / PNG predictor, any '
+                    'number of object streams under any filter chain incl. predictors, Length direct, by reference to a top-level integer (eager) or to '
+                    'an integer kept in an object stream (deferred)); files of several sections (Prev): the Prev loop, newest-entry-wins and the three '
+                    'passes of the reader over the merged table are proved format-independently (C02_prev_chain, C02_merge_newest_wins, '
+                    'C02_load_chain_frame); not proved: that the parts ref_write_multi lays out form such a chain (C02_loads_multi_partial, a Definition)',
     'rule': '(style, abstract document) pairs: 1-12 objects of every kind nested to depth 3 with adversarial bytes in names and strings, '
             'streams with direct or indirect Length; styles randomise fillers (6 white-space bytes, comments with every EOL), name escapes, '
             'literal/hex string spellings (octal 1-3 digits, short escapes, ignored backslash, continuations, raw EOLs, hex white-space, odd '
@@ -1224,13 +1225,15 @@ MANIFEST = {
                   'ASCIIHexDecode round trips; rung 2: for every style tree of the reference writer (fillers at every token boundary, every '
                   'spelling of names, strings incl. raw balanced parentheses, integers, reals (value-preserving), references, arrays and '
                   'dictionaries at any nesting the parser allows) parser::direct_object, the indirect-object parser and the trailer parser '
-                  'return the denoted object; rung 3: Reader::read (Model/Loader.v) loads every reference file with a cross-reference '
-                  'table (junk before the header, objects in any order, any sectioning, any end-of-lines) to exactly the document it '
-                  'defines; files with cross-reference streams / object streams (C02_full, stated) are checked by correspondence '
-                  'against an independent reference writer extracted from Coq',
-    'level_note': 'partial: the whole-file theorem is proved for the table format only (cross-reference streams, object streams, indirect '
-                  'Length: notes/C02.md); open findings C02-raw-eol (raw CR in literal strings) and C02-deep-parens (nesting above 100) '
-                  'are excluded by decidable classes on the input',
+                  'return the denoted object; rung 3 (C02_full): Reader::read (Model/LoaderExt.v load_ext, conservative over Model/Loader.v) loads '
+                  'every single-section reference file -- cross-reference table or stream (any W / Index / filter chain / predictor), object '
+                  'streams (any members, spellings, filter chains, predictors), Length direct or by reference (eager and deferred), junk before '
+                  'the header, any object order / sectioning / end-of-lines -- to exactly the objects (by value), trailer and version it defines; '
+                  'files of several sections: Prev loop and merge proved format-independently, the layout of ref_write_multi checked by '
+                  'correspondence against an independent reference writer extracted from Coq',
+    'level_note': 'partial only in: files of several cross-reference sections (ref_write_multi: C02_loads_multi_partial is a Definition; the '
+                  'format-independent half is proved); open findings C02-raw-eol (raw CR in literal strings) and C02-deep-parens (nesting above '
+                  '100) are excluded by decidable classes on the input',
     'technique': 'Coq proofs over Gallina models of xref.rs / parser_aux.rs / object_stream.rs / the xref table parser / the token '
                  'parsers; differential check of the models on valid and malformed inputs; reference PDF writer in Gallina '
                  '(Spec/RefWriter.v) extracted to OCaml feeds Document::load_mem and Model/Loader.v',
